@@ -68,6 +68,11 @@ def make_jobs(rnd, n):
                      "lang": rnd.randrange(3), "hi": str(rnd.getrandbits(64)), "lo": str(rnd.getrandbits(64)), "seeded": rnd.random() < 0.85, "viaseed": rnd.random() < 0.5,
                      # the same default-sides text under different syntax flags (bit-wise operators on / off): compiled per VM
                      "defexpr": rnd.choice(["", "", "1024|3", "1024|3", "d4", "20", "8&12"])})
+    # rejected inputs under each language (error values are per VM: rendered later they still speak their VM's language)
+    for bad in ("", " ", "(1+2", "/", "1 +\n", "[1,"):
+        for lang in (0, 1, 2):
+            jobs.append({"nodetail": False, "b64": base64.b64encode(bad.encode()).decode(), "flags": [True] * 4 + [False] * 3, "lang": lang,
+                         "hi": str(rnd.getrandbits(64)), "lo": str(rnd.getrandbits(64)), "seeded": True, "viaseed": False, "defexpr": ""})
     # the same default-sides text compiled under different syntax flags in different VMs (each VM compiles it for itself)
     # (max mode: a bare `d` is exactly the number of sides, 1024|3 = 1027 with bit-wise operators, 1024 when they are disabled and `|3` is left unread)
     for prog, k in (("d + 2d", 3), ("func g(u) { d + u }; g(0)", 1), ("&cv = 2d; cv", 2), ("d", 1)):
